@@ -206,7 +206,7 @@ def run_with(api, fn, rec):
         api.steps.user = rec
     api.steps.reset = reset_and_hook
     try:
-        return api.run(fn, wall=200.0, cap=60_000_000)
+        return api.run(fn, wall=90.0, cap=60_000_000)
     finally:
         api.steps.reset = orig_reset
         api.steps.user = None
